@@ -41,7 +41,7 @@ fn root() -> String {
 }
 
 fn families() -> Vec<Box<dyn DynFamily>> {
-    vec![Box::new(fam::a2::A2)]
+    vec![Box::new(fam::a1::A1), Box::new(fam::a2::A2), Box::new(fam::a3::A3)]
 }
 
 fn level_of(prop: &str) -> &'static str {
@@ -148,6 +148,7 @@ fn cmd_check(args: &[String]) -> i32 {
     let mut n_viol = 0usize;
     let mut n_known = 0usize;
     let mut replay_n = 0usize;
+    let mut known_hits: BTreeMap<usize, usize> = BTreeMap::new();
     for f in &fams {
         let count = count_override.unwrap_or_else(|| f.budget(tier, &prop));
         if count == 0 {
@@ -213,10 +214,8 @@ fn cmd_check(args: &[String]) -> i32 {
         // violations: known-finding match, else minimise + replay file
         let mut seen_oracles: BTreeMap<String, usize> = BTreeMap::new();
         for (_, scn, v, _h) in &agg.violations {
-            if let Some(k) = known.iter().find(|k| k.property == v.property && (k.oracle.is_empty() || k.oracle == v.oracle) && v.detail.contains(&k.contains)) {
-                if n_known < 20 {
-                    println!("KNOWN-FINDING: property={} {} [{}]", v.property, k.what, v.oracle);
-                }
+            if let Some(ki) = known.iter().position(|k| k.property == v.property && (k.oracle.is_empty() || k.oracle == v.oracle) && v.detail.contains(&k.contains)) {
+                *known_hits.entry(ki).or_insert(0) += 1;
                 n_known += 1;
                 continue;
             }
@@ -257,6 +256,9 @@ fn cmd_check(args: &[String]) -> i32 {
         }
     }
     let wall = t0.elapsed().as_secs_f64();
+    for (ki, n) in &known_hits {
+        println!("KNOWN-FINDING: property={} {} [oracle {}; seen in {} executions of this run]", known[*ki].property, known[*ki].what, known[*ki].oracle, n);
+    }
     for (k, v) in &counters {
         if k.starts_with("probe.") && *v == 0 {
             println!("warning: reach probe {} stayed at zero", k);
